@@ -321,6 +321,28 @@ def late_merge_k(n, k, seed):
     return A
 
 
+def late_hub_tree(n, seed):
+    """labelled tree aimed at late multi-way merges of a row-major scan: low-numbered leaves hang on
+    high-numbered nodes, which are tied together through a few mid-numbered hubs."""
+    rs = np.random.RandomState(seed)
+    A = np.zeros((n, n))
+    nl = max(2, n // 2)            # leaves 0..nl-1
+    nh = max(1, (n - nl) // 3)     # hubs nl..nl+nh-1
+    late = list(range(nl + nh, n)) or [n - 1]
+    hubs = list(range(nl, nl + nh))
+    for v in range(nl):
+        u = late[rs.randint(len(late))]
+        A[v, u] = A[u, v] = 1
+    for u in late:
+        h = hubs[rs.randint(len(hubs))] if hubs else late[0]
+        if h != u:
+            A[h, u] = A[u, h] = 1
+    for a, b in zip(hubs[:-1], hubs[1:]):
+        if rs.rand() < .7:
+            A[a, b] = A[b, a] = 1
+    return A
+
+
 NAMED = {
     'path': path, 'cycle': cycle, 'star': star, 'wheel': wheel, 'complete': complete, 'kab': kab,
     'circulant': circulant, 'hypercube': hypercube, 'grid': grid, 'prufer': prufer_tree,
@@ -328,7 +350,7 @@ NAMED = {
     'lollipop': lollipop, 'dcycle': dcycle, 'dcycle_chords': dcycle_chords, 'dag': dag,
     'tournament': tournament, 'two_blobs_dir': two_blobs_dir, 'oneway_bridge': oneway_bridge,
     'er_connected': er_connected, 'er_strong': er_strong, 'planted': planted, 'late_merge': late_merge,
-    'late_merge_k': late_merge_k,
+    'late_merge_k': late_merge_k, 'late_hub_tree': late_hub_tree,
 }
 
 
@@ -375,6 +397,8 @@ def weigh(A, scheme, seed, symmetric):
         Wt = rs.randint(1, 4, size=(n, n)).astype(float)
     elif scheme == 'dyad':
         Wt = rs.randint(1, 9, size=(n, n)) / 8.0
+    elif scheme == 'decimal':   # k/10: equal real lengths whose float sums differ in the last bit (rounding-level ties)
+        Wt = rs.randint(1, 10, size=(n, n)) / 10.0
     elif scheme == 'neartie':   # exactly representable lengths that differ by ~1e-6: near-ties that are not ties
         Wt = rs.randint(1, 4, size=(n, n)) + rs.randint(0, 3, size=(n, n)) * 2.0 ** -20
     elif scheme == 'bigint':    # large integers differing by 1 (relative difference 2e-6)
